@@ -21,7 +21,6 @@ import (
 	"runtime"
 	"sync"
 	"sync/atomic"
-	"syscall"
 	"testing"
 	"time"
 
@@ -77,8 +76,9 @@ type Result struct {
 var inReplay atomic.Bool
 
 // armWatchdog makes a call that never returns end the process: a Go timer first and, because a
-// spinning compiled guest can starve Go timers when GOMAXPROCS is 1, alarm(2) behind it (the
-// default action of SIGALRM terminates the process). The returned function disarms both.
+// compiled guest that spins without ever leaving native code starves Go timers when GOMAXPROCS
+// is 1, an external watchdog process behind it (watchdog_test.go). The returned function disarms
+// both.
 func armWatchdog(c *Case) func() {
 	b, _ := json.Marshal(c)
 	t := time.AfterFunc(watchdogTime, func() {
@@ -89,14 +89,12 @@ func armWatchdog(c *Case) func() {
 		fmt.Fprintf(os.Stderr, "\nfatal error: C07 watchdog: %s\n", msg)
 		os.Exit(3)
 	})
-	alarm(uint(watchdogTime/time.Second) + 10)
+	externalWatchdog("arm")
 	return func() {
 		t.Stop()
-		alarm(0)
+		externalWatchdog("disarm")
 	}
 }
-
-func alarm(sec uint) { syscall.Syscall(syscall.SYS_ALARM, uintptr(sec), 0, 0) }
 
 // ---- execution ----
 
@@ -465,8 +463,10 @@ func labelsOf(c *Case, r Result) []string {
 		switch {
 		case tail > 0 && non > 0:
 			l = append(l, "calls:mixed-tail-and-plain")
+		case tail > 0 && s.Inner == 0:
+			l = append(l, "calls:tail-calls-only")
 		case tail > 0:
-			l = append(l, "calls:tail-only-with-inner-loop")
+			l = append(l, "calls:tail-calls-with-inner-loop")
 		case s.Inner == 0:
 			l = append(l, "calls:pure-recursion")
 		default:
@@ -485,7 +485,7 @@ func TestCycles(t *testing.T) {
 		t.Skip()
 	}
 	knownClasses(t)
-	evid.Check(t, "cycles", evid.Scale(1200, 48000), func(t *rapid.T) {
+	evid.Check(t, "cycles", evid.Scale(2000, 48000), func(t *rapid.T) {
 		c := genCase(t)
 		exclude(c)
 		r := guarded(c)
